@@ -292,6 +292,7 @@ theorem doAct_proj {P : Prog} {l : Leaf} {s s' : Scope} {a : Act} (h : doAct P s
     cases h
     exact ⟨(givePlace_proj l s p).1, (givePlace_proj l s p).2, trivial⟩
   | dropAfter => simp [doAct] at h
+  | moveOut => simp [doAct] at h
 
 theorem assignTarget_proj {P : Prog} {l : Leaf} {s s' : Scope} {t : Place}
     (h : assignTarget P s t = .ok s') :
